@@ -18,6 +18,9 @@ Record case := mkCase {
   o_lastw : bool;          (* the last PWM write of the restore was hit by an injected fault *)
   o_trace : list (list Z); (* per cycle: classes of the hooked file operations in the order they happened
                               (0 sensor read, 1 RPM read, 2 PWM read, 3 PWM write, 4 mode write, 5 mode read) *)
+  o_cyc : list (Z * Z);    (* per control cycle that ended WITHOUT error, in order: (request = lastSetPwm after the cycle,
+                              PWM the device shows after the cycle).  The driver's PWM map is the identity on 0..255,
+                              so the PWM-map output for a request is the request itself. *)
 }.
 
 Definition dev_eqb (a b : dev) : bool := (mode a =? mode b) && (pwm a =? pwm b).
@@ -87,21 +90,59 @@ Definition sup (c : case) : bool := mode_supported (cb_fan (c_cb c)) (cb_enable_
 (* the property on the implementation's observation: never a panic; a stop only
    with the fan handed back / at 255, or with the last-resort write (seen in the
    operation log) hit by that cycle's PWM-write fault *)
-Definition holdsb (c : case) : bool :=
+(* "keeps regulating with the last good data": a control cycle that ended without error and in which
+   no PWM write was hit by a fault (per-operation plans: no operation at all) must leave the device at
+   the value asked for in that cycle - fan2go may not believe it regulates while the fan stays at a stale
+   value (e.g. after an earlier failed write) *)
+Definition is_none (f : fault) : bool := match f with FNone => true | _ => false end.
+Definition applicable (c : case) (k : nat) : bool :=
+  if per_op c then forallb is_none (oy_ops (nth k (c_ops c) (mkOC [] false)))
+  else is_none (cy_pwm_write (nth k (c_plan c) (mkCyc FNone FNone FNone 0 FNone FNone false))).
+
+Fixpoint cyc_scan (app : nat -> bool) (k : nat) (l : list (Z * Z)) : bool :=
+  match l with
+  | [] => true
+  | (r, p) :: t => (negb (app k) || (p =? r)) && cyc_scan app (S k) t
+  end.
+
+Lemma cyc_scan_spec app l : forall k,
+  cyc_scan app k l = true <->
+  (forall i r p, nth_error l i = Some (r, p) -> app (k + i)%nat = true -> p = r).
+Proof.
+  induction l as [|[r0 p0] t IH]; intros k; cbn [cyc_scan].
+  - split; [intros _ i r p H; destruct i; discriminate|reflexivity].
+  - rewrite andb_true_iff, IH, orb_true_iff, negb_true_iff, Z.eqb_eq. split.
+    + intros [H0 Ht] i r p Hn Ha. destruct i as [|i].
+      * cbn in Hn. inversion Hn; subst. rewrite Nat.add_0_r in Ha. destruct H0; congruence.
+      * cbn in Hn. apply (Ht i r p Hn). rewrite <- Nat.add_succ_comm in Ha. exact Ha.
+    + intros H. split.
+      * destruct (app k) eqn:A; [right|left; reflexivity]. apply (H 0%nat r0 p0); [reflexivity|]. rewrite Nat.add_0_r. exact A.
+      * intros i r p Hn Ha. apply (H (S i) r p); [exact Hn|]. rewrite <- Nat.add_succ_comm. exact Ha.
+Qed.
+
+Definition regulates_freshb (c : case) : bool := cyc_scan (applicable c) 0 (o_cyc c).
+Definition regulates_fresh (c : case) : Prop :=
+  forall k r p, nth_error (o_cyc c) k = Some (r, p) -> applicable c k = true -> p = r.
+Lemma regulates_freshb_spec c : regulates_freshb c = true <-> regulates_fresh c.
+Proof. unfold regulates_freshb, regulates_fresh. rewrite cyc_scan_spec. cbn. reflexivity. Qed.
+
+Definition holdsb1 (c : case) : bool :=
   if o_kind c =? 2 then false
   else if o_kind c =? 1 then
     safeb (sup c) (c_orig c) (o_dev c)
     || (attempted_last_resort (o_ops c) && o_lastw c)
   else true.
 
-Definition Holds (c : case) : Prop :=
+Definition holdsb (c : case) : bool := holdsb1 c && regulates_freshb c.
+
+Definition Holds1 (c : case) : Prop :=
   o_kind c <> 2 /\
   (o_kind c = 1 -> safe (sup c) (c_orig c) (o_dev c)
                    \/ (attempted_last_resort (o_ops c) = true /\ o_lastw c = true)).
 
-Lemma holdsb_spec c : holdsb c = true <-> Holds c.
+Lemma holdsb1_spec c : holdsb1 c = true <-> Holds1 c.
 Proof.
-  unfold holdsb, Holds.
+  unfold holdsb1, Holds1.
   destruct (o_kind c =? 2) eqn:E2.
   - apply Z.eqb_eq in E2. split; [discriminate|]. intros [H _]. congruence.
   - apply Z.eqb_neq in E2.
@@ -113,6 +154,10 @@ Proof.
     + apply Z.eqb_neq in E1. split; [|reflexivity].
       intros _. split; [exact E2|]. intros H. congruence.
 Qed.
+
+Definition Holds (c : case) : Prop := Holds1 c /\ regulates_fresh c.
+Lemma holdsb_spec c : holdsb c = true <-> Holds c.
+Proof. unfold holdsb, Holds. rewrite andb_true_iff, holdsb1_spec, regulates_freshb_spec. reflexivity. Qed.
 
 (* a panic on the implementation is diagnosed with the model of the code as found *)
 Definition finding_code (c : case) : Z :=
